@@ -14,7 +14,8 @@ shape of `UniformRandomGenerator.__call__` (the random arrays are draw parameter
 * `jnp.unique(next_nodes, return_index=True, size=num_vehicles)` followed by
   `zeros.at[unique_indices].set(values)` is `resolve`: sorted distinct values with the index of their
   first occurrence, padded with the smallest value and its index, scattered into zeros.
-* int16 wrap-around is not modelled (unbounded integers).
+* int16 wrap-around is not modelled in `step` (unbounded integers); it is modelled in the generator's demand
+  scaling (`scaleDemands`, `wrap16`), where Env/MultiCVRP/Generator.lean proves it never happens.
 
 L2 = `legal` (per vehicle), `dests` (who goes where when several vehicles pick one customer),
 `routes`, `Feasible`, `IsSolution`, `objective`, `observe`: the rules as documented
@@ -228,6 +229,87 @@ def validDraw (c : Cfg) (mapMax : Rat) (d : Draw) : Prop :=
 
 instance (c : Cfg) (m : Rat) (d : Draw) : Decidable (validDraw c m d) := by
   unfold validDraw; infer_instance
+
+/-! #### the generator from the RAW random numbers (audit r1 entry 10)
+
+`Draw`/`validDraw` above take the random arrays AFTER the generator's arithmetic (and `validDraw` assumes their
+ranges).  Here the draw is what comes out of the PRNG — unit uniforms `u ∈ [0, 1)` and the integers of `randint` —
+and the arithmetic of `jax.random.uniform(minval, maxval)` and of the int16 demand scaling is transliterated, so
+that the ranges become theorems (Env/MultiCVRP/Generator.lean). -/
+
+/-- the numbers `generate_uniform_random_problem` gets from the PRNG: the unit uniforms behind its four
+`jax.random.uniform` calls (coordinates, window starts, early / late coefficients) and the result of
+`jax.random.randint(demand_key, (n + 1,), minval=0, maxval=customer_demand_max)` -/
+structure RawDraw where
+  uCoords : List (List Rat)
+  rawDemands : List Int
+  uWin : List Rat
+  uEarly : List Rat
+  uLate : List Rat
+  deriving Repr
+
+/-- the generator's parameters: `_map_max`, `_customer_demand_max`, `_max_start_window`, `_time_window_length`,
+`_early_coef_rand`, `_late_coef_rand` -/
+structure GenCfg where
+  mapMax : Rat
+  demandMax : Int
+  maxStart : Rat
+  windowLen : Rat
+  earlyLo : Rat
+  earlyHi : Rat
+  lateLo : Rat
+  lateHi : Rat
+  deriving Repr
+
+/-- `jax.random.uniform(key, shape, minval=lo, maxval=hi)` on the unit uniform `u`:
+`lax.max(minval, u * (maxval - minval) + minval)`, every float operation rounded -/
+def uniformMap (rnd : Rat → Rat) (lo hi u : Rat) : Rat :=
+  let x := rnd (rnd (u * rnd (hi - lo)) + lo)
+  if lo ≤ x then x else lo
+
+/-- float → integer conversion: truncation toward zero -/
+def truncInt (q : Rat) : Int := if 0 ≤ q then q.floor else -((-q).floor)
+
+/-- two's-complement wrap of an integer into int16 -/
+def wrap16 (z : Int) : Int := (z + 32768) % 65536 - 32768
+
+/-- `node_demands.at[DEPOT_IDX].set(0)` then
+`jnp.asarray(node_demands * (total_capacity / jnp.sum(node_demands)), dtype=jnp.int16)`: the quotient is one float
+(`total / 0 = 0` here; the code gets `0 · inf = nan → 0`: only when every demand is 0, and then every product is 0
+here too), each product is rounded, truncated and wrapped to int16 -/
+def scaleDemands (rnd : Rat → Rat) (total : Int) (raw : List Int) : List Int :=
+  let ds := Jx.setWD raw (DEPOT : Int) 0
+  let f := rnd ((total : Rat) / (ds.sum : Rat))
+  ds.map (fun (x : Int) => wrap16 (truncInt (rnd ((x : Rat) * f))))
+
+/-- the random arrays of `generate_uniform_random_problem` computed from the raw draw
+(`total_capacity = max_capacity * num_vehicles`) -/
+def drawOfRaw (rnd : Rat → Rat) (c : Cfg) (numVehicles : Nat) (g : GenCfg) (r : RawDraw) : Draw :=
+  { coords := r.uCoords.map (fun p => p.map (uniformMap rnd 0 g.mapMax))
+    scaled := scaleDemands rnd (c.maxCap * (numVehicles : Int)) r.rawDemands
+    winStart := r.uWin.map (uniformMap rnd 0 g.maxStart)
+    coefEarly := r.uEarly.map (uniformMap rnd g.earlyLo g.earlyHi)
+    coefLate := r.uLate.map (uniformMap rnd g.lateLo g.lateHi) }
+
+/-- `UniformRandomGenerator.__call__` from the raw draw (`window_end = window_start + window_length` is a float
+addition) -/
+def generateRaw (rnd : Rat → Rat) (c : Cfg) (numVehicles : Nat) (g : GenCfg) (r : RawDraw) : State :=
+  let d := drawOfRaw rnd c numVehicles g r
+  { generate c numVehicles g.demandMax g.windowLen d with
+    winEnd := d.winStart.map (fun x => rnd (x + g.windowLen)) }
+
+/-- what the PRNG can deliver: one pair of unit uniforms per node, one unit uniform per node for windows and
+coefficients (`0 ≤ u < 1`), one integer `0 ≤ x < customer_demand_max` per node -/
+def validRaw (c : Cfg) (g : GenCfg) (r : RawDraw) : Prop :=
+  r.uCoords.length = c.numCustomers + 1 ∧ r.rawDemands.length = c.numCustomers + 1 ∧
+  r.uWin.length = c.numCustomers + 1 ∧ r.uEarly.length = c.numCustomers + 1 ∧
+  r.uLate.length = c.numCustomers + 1 ∧
+  (∀ p ∈ r.uCoords, p.length = 2 ∧ ∀ u ∈ p, 0 ≤ u ∧ u < 1) ∧
+  (∀ x ∈ r.rawDemands, 0 ≤ x ∧ x < g.demandMax) ∧
+  (∀ u ∈ r.uWin, 0 ≤ u ∧ u < 1) ∧ (∀ u ∈ r.uEarly, 0 ≤ u ∧ u < 1) ∧ (∀ u ∈ r.uLate, 0 ≤ u ∧ u < 1)
+
+instance (c : Cfg) (g : GenCfg) (r : RawDraw) : Decidable (validRaw c g r) := by
+  unfold validRaw; infer_instance
 
 /-- `MultiCVRP.reset` -/
 def reset (c : Cfg) (numVehicles : Nat) (demandMax : Int) (windowLen : Rat) (d : Draw) :
